@@ -8,6 +8,34 @@ HERE = os.path.dirname(os.path.dirname(os.path.abspath(__file__)))
 TECH = "custom AST static analysis: "
 
 CLAIMS = {
+    "C07": dict(
+        text="Decides the structural preconditions of the parse/unparse round trip: unparser dispatch total over the computed set of concrete Formula "
+        "classes, emitted keywords/operator spellings are lexer literals, SMT string-literal escape writer/reader pair, match-expression escape pair "
+        "(violated today: known finding), freshness obligations of generated names (avoid the constant's name and earlier names), every ctx attribute a "
+        "listener reads exists in the generated context classes, every labelled grammar alternative stores into its result map, every __eq__ field is "
+        "printed. Does NOT decide equality/idempotence of the round trip in general.",
+        note="Trusted: generated parser in sync with the .g4 (literal names cross-checked); antlr4 runtime member names.",
+        technique=TECH + "dispatch exhaustiveness over the class hierarchy, writer/reader vocabulary and escape agreement, listener-vs-generated-context API resolution, freshness obligations",
+        design="5/C07",
+    ),
+    "C08": dict(
+        text="Decides the sugar-to-core translation where it is visible in code shape: truth tables of implies/iff/xor as built by the emitter against the "
+        "specification's, default `in` and free-nonterminal closure over the declared constant, S-expression templates of infix/prefix operators in source "
+        "order, universal (never existential) closure, 1-based->0-based XPath index agreement between the two sites. Does NOT decide that XPath elimination "
+        "and quantifier push-in preserve meaning on every tree.",
+        note="Trusted: -, &, | on formulas denote not/and/or (C09 decides their duality tables).",
+        technique=TECH + "truth-table normalisation of extracted propositional terms, template slot order, provenance of the in-variable",
+        design="5/C08",
+    ),
+    "C09": dict(
+        text="Decides the duality table of Formula.__neg__ and of the NNF handlers (incl. carried-over bound variable / in-variable / match expression), arity and "
+        "exhaustiveness of the convert_to_nnf dispatch, arity-genericity of every rewrite over n-ary combinators, completeness of quantifier reconstruction in "
+        "all rewrite functions, validity of every simplifying early return of __and__/__or__ by a 4-row truth table, and preservation of the connective in "
+        "replace/rename/DNF. Does NOT decide capture-avoidance of renaming nor DNF distribution beyond shape.",
+        note="Trusted: Formula.__eq__; SMTFormula.is_true/is_false; z3_push_in_negations.",
+        technique=TECH + "duality-table extraction from isinstance chains, truth-table check of guarded identities, arity-genericity lint with class narrowing facts",
+        design="5/C09",
+    ),
     "C16": dict(
         text="Decides immutability/ownership of DerivationTree state (identity fields written only by the constructor, memo fields only by their guarded memo "
         "accessors, no external writer), totality of the path index for any branching degree (interval reasoning of the key encoder against the folded trie "
